@@ -9,6 +9,9 @@
 //   rl  <c|x> <cap> <depth> <keys-hex>
 //   vt  <c|x> <cap> <depth> <echo> <keys-hex>
 //   vtx <c|x> <cap> <depth> <alpha> <L> <prefix-hex>   digest over a tree of key sequences
+//   lc  <c|x> <cap> <depth> <maxlen> <keys-hex>        keys, then readline_linecpy into exactly maxlen bytes
+// (ext) sl tokens: N<int>:<hex> sline_newdata with the int length as given; c igris::sline::clear;
+//                  s<len>,<cur> igris::sline::set_size_and_cursor
 #include "common/hv.h"
 #include "C15/iface.h"
 #include <deque>
@@ -40,6 +43,14 @@ namespace c15
             hv::exact_buf src(std::vector<uint8_t>(d.begin(), d.end()));
             return sline_newdata(&s, (const char *)src.p, (int)d.size());
         }
+        int newdata_n(const std::string &d, int n, bool &has_ret) override
+        {
+            has_ret = true;
+            hv::exact_buf src(std::vector<uint8_t>(d.begin(), d.end()));
+            return sline_newdata(&s, (const char *)src.p, n);
+        }
+        bool clear() override { return false; }
+        bool set_size_cursor(unsigned, unsigned) override { return false; }
         int backspace(unsigned n) override { return sline_backspace(&s, n); }
         int del(unsigned n) override { return sline_delete(&s, n); }
         int left() override { return sline_left(&s); }
@@ -73,6 +84,8 @@ namespace c15
         unsigned len() override { return rl.line.len; }
         unsigned cursor() override { return rl.line.cursor; }
         std::string text() override { return std::string(rl.line.buf, rl.line.len); }
+        int linecpy(char *dst, size_t maxlen) override { return readline_linecpy(&rl, dst, maxlen); }
+        int state() override { return rl.state; }
         std::string tail() override
         {
             return " H" + std::to_string(rl.headhist) + "," + std::to_string(rl.curhist) + "," + std::to_string(rl.state) +
@@ -101,6 +114,8 @@ namespace c15
         }
         void init_step() override { vterm_automate_init_step(&v); }
         void key(uint8_t c) override { vterm_automate_newdata(&v, (int16_t)c); }
+        int state() override { return v.state; }
+        int rlstate() override { return v.rl.state; }
         unsigned len() override { return v.rl.line.len; }
         unsigned cursor() override { return v.rl.line.cursor; }
         std::string text() override { return std::string(v.rl.line.buf, v.rl.line.len); }
@@ -311,6 +326,75 @@ struct ref_screen
     }
 };
 
+// Second, decoder-free oracle (the grammar of lean/IgrisModel/C15/Keys.lean): the typed bytes are cut into key
+// presses (level 1: Enter = CR | LF | CR LF | LF CR, Ctrl-C transparent for the pairing; level 2: ESC [ A/B/C/D,
+// ESC [ 3 x, unknown ESC x / ESC [ x ignored, Ctrl-C aborts a sequence) and a key-press editor consumes them.
+// No escape state, no "previous byte": the whole session is parsed at once.
+struct key_editor
+{
+    size_t cap, depth;
+    std::string left, right;
+    std::deque<std::string> hist;
+    size_t browse = 0;
+    std::vector<std::string> events; // "X<hex>" / "S"
+    key_editor(size_t c, size_t d) : cap(c), depth(d), hist(d, std::string()) {}
+    enum { NL = -1, INTR = -2 };
+    void fresh() { left.clear(); right.clear(); browse = 0; }
+    void run(const std::string &bytes)
+    {
+        std::vector<int> sy;
+        int pair = -1; // the byte that would be the second half of the Enter just seen
+        for (unsigned char c : bytes)
+        {
+            if (c == 3) sy.push_back(INTR);
+            else if (c == '\r' || c == '\n')
+            {
+                if (pair == c) pair = -1;
+                else { sy.push_back(NL); pair = c == '\r' ? '\n' : '\r'; }
+            }
+            else { sy.push_back(c); pair = -1; }
+        }
+        size_t i = 0, n = sy.size();
+        auto intr = [&]() { fresh(); events.push_back("S"); };
+        while (i < n)
+        {
+            int s = sy[i++];
+            if (s == INTR) intr();
+            else if (s == NL)
+            {
+                std::string l = left + right;
+                events.push_back("X" + hex(l));
+                if (depth && !l.empty() && l != hist[0]) { hist.push_front(l.substr(0, l.find('\0'))); hist.pop_back(); }
+                fresh();
+            }
+            else if (s == 8) { if (!left.empty()) left.pop_back(); }
+            else if (s != 27) { if (left.size() + right.size() + 1 < cap) left.push_back((char)s); }
+            else
+            {
+                if (i == n) break;
+                int d = sy[i++];
+                if (d == INTR) { intr(); continue; }
+                if (d != '[') continue; // unknown ESC x (x may be Enter)
+                if (i == n) break;
+                int e = sy[i++];
+                if (e == INTR) { intr(); continue; }
+                switch (e)
+                {
+                case 'A': if (depth && browse < depth) { left = hist[browse++]; right.clear(); } break;
+                case 'B': if (depth && browse > 0) { browse--; left = browse ? hist[browse - 1] : std::string(); right.clear(); } break;
+                case 'C': if (!right.empty()) { left.push_back(right[0]); right.erase(0, 1); } break;
+                case 'D': if (!left.empty()) { right.insert(right.begin(), left.back()); left.pop_back(); } break;
+                case '3':
+                    if (!right.empty()) right.erase(0, 1);
+                    if (i < n) { if (sy[i] == INTR) intr(); i++; }
+                    break;
+                default: break; // unknown ESC [ x
+                }
+            }
+        }
+    }
+};
+
 static const std::string PROMPT = "$ ";
 
 static bool screen_safe(uint8_t c) { return (c >= 0x20 && c <= 0x7e) || c == 8 || c == 13 || c == 10 || c == 27 || c == 3; }
@@ -352,6 +436,24 @@ struct session
             fail = w + " after keys " + hex(keys);
     }
     std::string keys;
+    std::vector<std::string> allev; // every callback event of the session, in order
+    bool last_accept = false;
+    // the whole session against the key grammar (decoder-free oracle)
+    void check_grammar(unsigned depth)
+    {
+        key_editor ke(cap, depth);
+        ke.run(keys);
+        if (ke.events != allev)
+        {
+            size_t i = 0;
+            while (i < ke.events.size() && i < allev.size() && ke.events[i] == allev[i]) i++;
+            bad("callback event #" + std::to_string(i) + " is " + (i < allev.size() ? allev[i] : std::string("missing")) +
+                    ", the key grammar expects " + (i < ke.events.size() ? ke.events[i] : std::string("none")),
+                keys);
+        }
+        else if (!(cxx && last_accept) && (v->text() != ke.left + ke.right || v->cursor() != ke.left.size()))
+            bad("final line / cursor differ from the key-press editor's '" + hex(ke.left + ke.right) + "' / " + std::to_string(ke.left.size()), keys);
+    }
     session(bool cxx_, unsigned cap_, unsigned depth, bool echo_)
         : v(cxx_ ? make_vterm_x(cap_, depth, echo_) : make_vterm_c(cap_, depth, echo_)), ref(cap_, depth, true), cxx(cxx_), echo(echo_), cap(cap_)
     {
@@ -390,8 +492,10 @@ struct session
         bool full = ref.len() + 1 >= cap;
         int esc_before = ref.esc;
         v->key(c);
+        for (auto &e : v->evs) allev.push_back(e.exec ? "X" + hex(e.line) : std::string("S"));
         std::string acc;
         int r = ref.key(c, acc);
+        last_accept = r == 1;
         // ---- events
         std::string es;
         if (want_record)
@@ -425,6 +529,14 @@ struct session
         // after accept / abort the terminal starts a fresh line
         if (r == 1)
             ref.fresh_line();
+        // ---- the automata stay in their enumerated states (the `default:` branches are dead)
+        {
+            int st = v->state(), rs = v->rlstate();
+            if (!(st == 2 || (cxx && r == 1 && st == 1)))
+                bad("terminal automaton state " + std::to_string(st) + " after a key", keys);
+            if (rs < 0 || rs > 3 || rs != ref.esc)
+                bad("readline escape state " + std::to_string(rs) + " != reference decoder's " + std::to_string(ref.esc), keys);
+        }
         // ---- editor state
         unsigned len = v->len(), cur = v->cursor();
         if (!(cur <= len && len < cap))
@@ -440,6 +552,9 @@ struct session
             bad("edit buffer '" + hex(v->text()) + "' != reference line '" + hex(ref.line()) + "'", keys);
         else if (cur != ref.left.size())
             bad("cursor " + std::to_string(cur) + " != reference cursor " + std::to_string(ref.left.size()), keys);
+        // ---- echo off: the write callback is never used
+        if (!echo && !v->echoed.empty())
+            bad("echo is off but " + std::to_string(v->echoed.size()) + " bytes were written", keys);
         // ---- screen
         pending_prompt = cxx && r == 1;
         scr.feed(v->echoed);
@@ -543,6 +658,53 @@ static void run_sl(const std::vector<std::string> &w, out &o)
             if (k && !R.empty()) o.tag("bulk-insert-midline");
             if (L.size() + R.size() + 1 == cap) o.tag("line-full");
             ret = has ? std::to_string(r) : "v";
+            break;
+        }
+        case 'N':
+        {
+            // N<int>:<hex>  sline_newdata(data, len) with an explicit length: negative, zero, or a prefix of the data
+            size_t colon = arg.find(':');
+            int n = atoi(arg.substr(0, colon).c_str());
+            auto d = hv::unhex(arg.substr(colon + 1));
+            std::string ds(d.begin(), d.end());
+            bool has = false;
+            int r = s->newdata_n(ds, n, has);
+            size_t room = cap - 1 - (L.size() + R.size());
+            size_t k = n <= 0 ? 0 : std::min(room, (size_t)n);
+            L += ds.substr(0, k);
+            if (has && r != (int)k) fail("newdata result " + std::to_string(r) + ", " + std::to_string(k) + " characters fit");
+            if (n < 0) o.tag("newdata-negative-len");
+            if (n == 0) o.tag("newdata-zero-len");
+            if (k && !R.empty()) o.tag("bulk-insert-midline");
+            ret = has ? std::to_string(r) : "v";
+            break;
+        }
+        case 'c':
+        {
+            if (!s->clear()) { o.result = "bad-op"; return; }
+            L.assign(L.size(), '\0');
+            R.assign(R.size(), '\0');
+            o.tag("clear");
+            break;
+        }
+        case 's':
+        {
+            // s<len>,<cursor>: raw setter; the line it denotes is whatever the storage holds
+            unsigned l = 0, c = 0;
+            sscanf(arg.c_str(), "%u,%u", &l, &c);
+            std::string before = s->text();
+            unsigned len0 = s->len();
+            if (!s->set_size_cursor(l, c)) { o.result = "bad-op"; return; }
+            if (s->len() != l || s->cursor() != c) fail("set_size_and_cursor did not store its arguments");
+            if (c <= l && l < cap)
+            {
+                std::string t = s->text();
+                if (t.substr(0, std::min<size_t>(len0, l)) != before.substr(0, std::min<size_t>(len0, l)))
+                    fail("set_size_and_cursor changed the stored characters");
+                L = t.substr(0, c);
+                R = t.substr(c);
+                o.tag(l > len0 ? "set-size-grow" : "set-size");
+            }
             break;
         }
         case 'b':
@@ -681,6 +843,50 @@ static void run_rl(const std::vector<std::string> &w, out &o)
     o.result = res + rl->tail();
 }
 
+// lc <c|x> <cap> <depth> <maxlen> <keys-hex>: type the keys, then readline_linecpy into a destination of
+// exactly maxlen bytes (pre-filled with 0xAA, under ASan)
+static void run_lc(const std::vector<std::string> &w, out &o)
+{
+    bool cxx = w[1] == "x";
+    unsigned cap = (unsigned)strtoul(w[2].c_str(), 0, 10), depth = (unsigned)strtoul(w[3].c_str(), 0, 10);
+    size_t maxlen = (size_t)strtoul(w[4].c_str(), 0, 10);
+    auto keys = hv::unhex(w[5]);
+    std::unique_ptr<ireadline> rl(cxx ? make_readline_x(cap, depth) : make_readline_c(cap, depth));
+    ref_editor ref(cap, depth, false);
+    for (uint8_t c : keys)
+    {
+        int ret = rl->putchar(c);
+        std::string acc;
+        ref.key(c, acc);
+        if (ret == READLINE_NEWLINE)
+        {
+            rl->newline_reset();
+            ref.fresh_line();
+        }
+    }
+    // (a zero-sized destination is given one guard byte that must stay untouched)
+    hv::exact_buf dst(std::vector<uint8_t>(maxlen ? maxlen : 1, 0xAA));
+    int n = rl->linecpy((char *)dst.p, maxlen);
+    if (maxlen == 0 && dst.p[0] != 0xAA) o.fail("linecpy wrote into a zero-sized destination");
+    std::string line = ref.line();
+    size_t want = maxlen == 0 ? 0 : std::min(line.size(), maxlen - 1);
+    if (n != (int)want)
+        o.fail("linecpy returned " + std::to_string(n) + ", min(len, maxlen - 1) = " + std::to_string(want));
+    else if (maxlen)
+    {
+        if (memcmp(dst.p, line.data(), want) != 0) o.fail("linecpy: copied characters differ from the reference line");
+        else if (dst.p[want] != 0) o.fail("linecpy: no terminator at [" + std::to_string(want) + "]");
+        else
+            for (size_t i = want + 1; i < maxlen; i++)
+                if (dst.p[i] != 0xAA) { o.fail("linecpy wrote beyond the terminator at [" + std::to_string(i) + "]"); break; }
+    }
+    if (maxlen == 0) o.tag("linecpy-zero-dest");
+    else if (want < line.size()) o.tag("linecpy-truncated");
+    else if (want + 1 == maxlen) o.tag("linecpy-exact-fit");
+    else o.tag("linecpy");
+    o.result = std::to_string(n) + " " + hex(dst.p, maxlen);
+}
+
 static void run_vt(const std::vector<std::string> &w, out &o)
 {
     bool cxx = w[1] == "x";
@@ -691,9 +897,12 @@ static void run_vt(const std::vector<std::string> &w, out &o)
     std::string res = "I" + hex(s.init_step());
     for (uint8_t c : keys)
         res += " " + s.key(c);
+    s.check_grammar(depth);
     o.result = res;
     if (!s.fail.empty()) o.fail(s.fail);
     o.tags = session::tagstr(s.tagbits);
+    if (depth >= 256) o.tag("depth-ge-256");
+    if (!echo) o.tag("echo-off");
 }
 
 static void run_vtx(const std::vector<std::string> &w, out &o)
@@ -739,6 +948,7 @@ static void run_vtx(const std::vector<std::string> &w, out &o)
                 d.key(*s.v);
             }
             count++;
+            s.check_grammar(depth);
             if (!s.fail.empty() && firstfail.empty()) firstfail = s.fail;
             alltags |= s.tagbits;
             walk(left - 1);
@@ -760,6 +970,7 @@ static void run_op(const std::vector<std::string> &w, const std::string &, out &
     if (op == "consts") { o.result = consts_c(); return; }
     if (op == "sl" && w.size() >= 3) return run_sl(w, o);
     if (op == "rl" && w.size() == 5) return run_rl(w, o);
+    if (op == "lc" && w.size() == 6) return run_lc(w, o);
     if (op == "vt" && w.size() == 6) return run_vt(w, o);
     if (op == "vtx" && w.size() == 7) return run_vtx(w, o);
     o.result = "bad-op";
@@ -840,20 +1051,77 @@ static void gen(hv::rng &r, const std::string &tier)
     bool th = tier == "thorough";
     const char *VAR[2] = {"c", "x"};
     emit("consts");
+    // capacity 0 is outside the contract (sline_getline needs one byte for the terminator): recorded finding
+    emit("@F:C15-capacity-zero sl c 0 p61");
+    emit("@F:C15-capacity-zero sl x 0 g");
     // ---- sline: exhaustive short op histories, then long random ones
     // (the seed picks the capacity that gets the deepest tree, see the key trees below)
     for (unsigned cap = 2; cap <= 4; cap++)
         gen_sl_exhaustive(cap, th && cap == 2 + gen_seed % 3 ? 5 : 4, VAR[cap & 1]);
     gen_sl_exhaustive(3, 3, "x");
     gen_sl_exhaustive(2, 3, "x");
+    // (ext) sline_newdata with an explicit int length <= 0 or shorter than the data (C family), and the raw
+    // accessors of igris::sline: clear, set_size_and_cursor with valid arguments (C++ family): exhaustive short histories
+    {
+        static const std::vector<std::string> tc = {"p61", "N-1:6263", "N0:62", "N1:6263", "N2:6263", "N-2147483648:61", "l", "b1", "g"};
+        for (unsigned cap = 2; cap <= 4; cap++)
+        {
+            std::vector<size_t> idx(cap == 4 ? 3 : 4, 0);
+            for (;;)
+            {
+                std::string s = "sl c " + std::to_string(cap);
+                for (size_t i : idx) s += " " + tc[i];
+                emit(s);
+                size_t p = idx.size();
+                while (p > 0 && ++idx[p - 1] == tc.size()) idx[--p] = 0;
+                if (p == 0) break;
+            }
+        }
+        for (unsigned cap = 2; cap <= 4; cap++)
+        {
+            std::vector<std::string> tx = {"p61", "p62", "n6364", "c", "l", "d1", "g", "s0,0"};
+            for (unsigned l = 1; l < cap; l++)
+                for (unsigned c = 0; c <= l; c++) tx.push_back("s" + std::to_string(l) + "," + std::to_string(c));
+            std::vector<size_t> idx(cap == 4 ? 3 : 4, 0);
+            for (;;)
+            {
+                std::string s = "sl x " + std::to_string(cap);
+                for (size_t i : idx) s += " " + tx[i];
+                emit(s);
+                size_t p = idx.size();
+                while (p > 0 && ++idx[p - 1] == tx.size()) idx[--p] = 0;
+                if (p == 0) break;
+            }
+        }
+    }
     for (int i = 0; i < (th ? 6000 : 1200); i++)
     {
         unsigned cap = (unsigned)r.range(2, r.chance(85) ? 12 : 40);
-        std::string s = std::string("sl ") + VAR[r.below(2)] + " " + std::to_string(cap);
+        bool vx = r.below(2);
+        bool ext = r.chance(35); // histories that also use the calls added by the extension
+        std::string s = std::string("sl ") + VAR[vx] + " " + std::to_string(cap);
         size_t n = r.range(1, 60);
         for (size_t j = 0; j < n; j++)
         {
             unsigned p = (unsigned)r.below(100);
+            if (ext && r.chance(15))
+            {
+                if (!vx)
+                {
+                    size_t m = r.range(0, 5);
+                    std::string d;
+                    for (size_t q = 0; q < m; q++) d.push_back((char)r.range(0x41, 0x5a));
+                    long nn = r.chance(30) ? -(long)r.range(1, 3) : r.chance(5) ? -2147483647L - 1 : (long)r.below(m + 1);
+                    s += " N" + std::to_string(nn) + ":" + hx(d);
+                }
+                else if (r.chance(30)) s += " c";
+                else
+                {
+                    unsigned l = (unsigned)r.below(cap), c = (unsigned)r.below(l + 1);
+                    s += " s" + std::to_string(l) + "," + std::to_string(c);
+                }
+                continue;
+            }
             if (p < 25) s += " p" + hv::hexn(r.chance(2) ? 0 : r.range(0x61, 0x7a), 2);
             else if (p < 40)
             {
@@ -880,6 +1148,20 @@ static void gen(hv::rng &r, const std::string &tier)
         std::string k = r.chance(75) ? typing(r, cap, depth ? depth : 1, n, r.chance(20)) : noise(r, n);
         for (char &c : k) if (c == 3) c = 'q'; // at this level 0x03 is an ordinary character: keep the streams comparable
         emit(std::string("rl ") + VAR[r.below(2)] + " " + std::to_string(cap) + " " + std::to_string(depth) + " " + hx(k));
+    }
+    // ---- (ext) readline_linecpy / igris::readline::linecpy after a typing session: destination sizes 0 .. cap + 3
+    for (unsigned cap = 2; cap <= 4; cap++)
+        for (unsigned maxlen = 0; maxlen <= cap + 1; maxlen++)
+            for (unsigned typed = 0; typed <= cap; typed++)
+                for (int var = 0; var < 2; var++)
+                    emit(std::string("lc ") + VAR[var] + " " + std::to_string(cap) + " 1 " + std::to_string(maxlen) + " " + hx(std::string("abcde").substr(0, typed)));
+    for (int i = 0; i < (th ? 2000 : 400); i++)
+    {
+        unsigned cap = (unsigned)r.range(2, 12), depth = (unsigned)r.range(0, 2);
+        std::string k = typing(r, cap, depth ? depth : 1, r.range(0, 40), r.chance(20));
+        for (char &c : k) if (c == 3) c = 'q';
+        size_t maxlen = r.chance(15) ? 0 : r.chance(40) ? r.range(1, 3) : r.range(1, cap + 3);
+        emit(std::string("lc ") + VAR[r.below(2)] + " " + std::to_string(cap) + " " + std::to_string(depth) + " " + std::to_string(maxlen) + " " + hx(k));
     }
     // ---- terminal: every byte sequence of length 3 over the 15-byte alphabet, listed one by one
     for (int var = 0; var < 2; var++)
@@ -927,12 +1209,15 @@ static void gen(hv::rng &r, const std::string &tier)
     // ---- very deep history rings (history_size is a uint8_t: depths up to 255, index arithmetic near 256):
     // many distinct short lines, then recalls at every depth.  Added after seeded change C15-history-index-uint8
     // (ring index computed in 8 bits) was missed: it needs depth >= 129.
-    for (int i = 0; i < (th ? 160 : 24); i++)
+    // (ext) depths >= 256 too: the ring indices were uint8_t (fix: unsigned int), 256 divided by zero in C and
+    // the browse index wrapped in C++.
+    for (int i = 0; i < (th ? 170 : 32); i++)
     {
-        static const unsigned DEPTHS[] = {255, 254, 200, 129, 128, 127, 130, 192, 250, 160, 100, 64};
-        unsigned depth = i < 12 ? DEPTHS[i] : (unsigned)r.range(65, 255);
+        static const unsigned DEPTHS[] = {255, 254, 200, 129, 128, 127, 130, 192, 250, 160, 100, 64, 256, 256, 257, 300, 511, 512, 260, 1000};
+        const int NFIX = th ? 20 : 19;
+        unsigned depth = i < NFIX ? DEPTHS[i] : (unsigned)r.range(65, r.chance(25) ? 400 : 255);
         unsigned cap = (unsigned)r.range(5, 9);
-        size_t nlines = r.chance(50) ? r.range(1, 70) : r.range(depth > 20 ? depth - 20 : 1, depth + 30);
+        size_t nlines = r.chance(50) && depth < 256 ? r.range(1, 70) : r.range(depth > 20 ? depth - 20 : 1, depth + 30);
         std::string k;
         size_t entered = 0;
         auto line = [&]()
@@ -947,6 +1232,7 @@ static void gen(hv::rng &r, const std::string &tier)
         for (int round = 0; round < 6; round++)
         {
             size_t ups = r.chance(30) ? 1 : r.chance(50) ? r.range(1, 8) : r.range(1, (entered < depth ? entered : depth) + 2);
+            if (depth >= 256 && round == 0) ups = (entered < depth ? entered : depth) + 2; // to the oldest line and beyond
             for (size_t j = 0; j < ups; j++) k += "\x1b[A";
             size_t downs = r.below(ups + 2);
             for (size_t j = 0; j < downs; j++) k += "\x1b[B";
@@ -954,7 +1240,7 @@ static void gen(hv::rng &r, const std::string &tier)
             else k.push_back('\x03');
             if (r.chance(50)) line();
         }
-        emit(std::string("vt ") + VAR[r.below(2)] + " " + std::to_string(cap) + " " + std::to_string(depth) + " 1 " + hx(k));
+        emit(std::string("vt ") + VAR[i < NFIX && i >= 12 ? (i & 1) : r.below(2)] + " " + std::to_string(cap) + " " + std::to_string(depth) + " 1 " + hx(k));
     }
 }
 
